@@ -174,4 +174,31 @@ theorem bodyPhase_readable (req : Bool) (outcome : Bytes → BodyOutcome) (r : R
     | accept => exact ⟨c1, c2⟩
     | rewrite nd => simp [Coherent, GetOK]
 
+/-- The bytes the next handler is entitled to after the whole validation: the original ones, or the re-encoded
+body when the body phase ran and set defaults. -/
+def expectedAfter (c : Cfg) (outcome : Bytes → BodyOutcome) (r : Req) (data : Bytes) : Bytes :=
+  if (!(secPhase c.hasAuthFunc r c.reqs).2.1 && !c.multi) || (!c.paramsOK && !c.multi) || !c.hasBodySpec then data
+  else bodyExpected outcome data
+
+theorem validateStream_coherent (c : Cfg) (outcome : Bytes → BodyOutcome) (r : Req) (data : Bytes)
+    (h : Coherent r data) :
+    Coherent (validateStream c outcome r).1 (expectedAfter c outcome r data) ∧
+    (r.contentLength = data.length →
+      (validateStream c outcome r).1.contentLength = (expectedAfter c outcome r data).length) := by
+  obtain ⟨hc, hl, _⟩ := secPhase_coherent c.hasAuthFunc r c.reqs data h
+  unfold validateStream expectedAfter
+  cases h1 : (!(secPhase c.hasAuthFunc r c.reqs).2.1 && !c.multi) with
+  | true => simp only [h1, Bool.true_or, ↓reduceIte]; exact ⟨hc, hl⟩
+  | false =>
+    cases h2 : (!c.paramsOK && !c.multi) with
+    | true => simp only [h1, h2, Bool.false_eq_true, Bool.true_or, Bool.or_true, ↓reduceIte]; exact ⟨hc, hl⟩
+    | false =>
+      cases h3 : c.hasBodySpec with
+      | false => simp only [h1, h2, h3, Bool.false_eq_true, Bool.not_false, Bool.or_true, ↓reduceIte]; exact ⟨hc, hl⟩
+      | true =>
+        simp only [h1, h2, h3, Bool.false_eq_true, Bool.not_true, Bool.or_false, ↓reduceIte]
+        obtain ⟨b1, b2⟩ := bodyPhase_readable c.required outcome _ data hc
+        exact ⟨b1, fun hcl => b2 (hl hcl)⟩
+
+
 end KinModel.C13.Stream
